@@ -213,11 +213,46 @@ def dense(sq, order, arc_order=None):
     return start, mats, stop
 
 
+def hankel_sigma(desc, rank):
+    """the `rank`-th largest singular value of the language's Hankel matrix (restricted to words of length ≤ dim on both sides,
+    which already has full rank), relative to max(1, largest): computed in floats from the Gramians of `simple_q`'s dense form.
+    Conditioning information only — it decides which cases are `well-conditioned` in the sense of the property's quantifier
+    (the real code takes its rank decisions with np.allclose, rtol 1e-5 / atol 1e-8), never a verdict."""
+    import numpy as np
+    sq = simple_q(desc)
+    if sq is None or rank == 0:
+        return None
+    st, arcs, sp = dense(sq, sq["states"])
+    n = len(st)
+    if n == 0:
+        return None
+    a, b = np.array([float(x) for x in st]), np.array([float(x) for x in sp])
+    Ms = [np.array([[float(x) for x in row] for row in M]) for _, M in arcs]
+    G0f, G0b = np.outer(a, a), np.outer(b, b)
+    Gf, Gb = G0f.copy(), G0b.copy()
+    for _ in range(n + 1):
+        Gf = G0f + sum((M.T @ Gf @ M for M in Ms), np.zeros((n, n)))
+        Gb = G0b + sum((M @ Gb @ M.T for M in Ms), np.zeros((n, n)))
+    ev = np.linalg.eigvals(Gf @ Gb)
+    sig = sorted((float(np.sqrt(abs(x))) for x in ev), reverse=True)
+    if not all(np.isfinite(sig)) or rank > len(sig):
+        return 0.0
+    return sig[rank - 1] / max(1.0, sig[0])
+
+
 def maut_json(d):
     start, mats, stop = d
     fs = common.frac_str
     return {"dim": len(start), "start": [fs(x) for x in start], "stop": [fs(x) for x in stop],
             "arcs": [[a, [[fs(x) for x in row] for row in M]] for a, M in mats]}
+
+
+def _ill_min(c, rank, stats, count):
+    sg = hankel_sigma(c["a"], rank)
+    ill = sg is not None and sg < 1e-4
+    if ill and count:
+        stats["ill_conditioned_min"] = stats.get("ill_conditioned_min", 0) + 1
+    return ill
 
 
 def _fclose(x, q, rtol, atol):
@@ -621,7 +656,10 @@ def run(ctx):
             mw = [common.num(x) for x in Lm["wa"]]
             if isinstance(md, dict):
                 semantic.append(_viol(c, hs, "min", md))
-            elif md != Lm["dim"]:
+            elif md != Lm["dim"] and not (isinstance(md, int) and md < Lm["dim"] and _ill_min(c, Lm["dim"], stats, hs == hashseeds[0])):
+                # (a language whose smallest non-zero Hankel singular value is below the real code's np.allclose tolerance is
+                #  outside the property's `well-conditioned weights`: there a SMALLER machine that still reproduces the weights is
+                #  accepted — the weights are compared just below — and counted; a larger one never is)
                 semantic.append(_viol(c, hs, "min", {"min_dim": md, "verified_minimal_dim": Lm["dim"]}))
             elif any(not _fclose(x, y, 1e-6, 1e-8) for x, y in zip(res["min_vals"], mw)):
                 semantic.append(_viol(c, hs, "min", {"min_vals": res["min_vals"], "verified_weights": [str(x) for x in mw]}))
@@ -631,7 +669,7 @@ def run(ctx):
                 traces += 1
                 # structural: the minimal automaton and the forward basis themselves (same dict order of the matrices)
                 ms = res.get("min_simple")
-                if isinstance(ms, dict) and "exc" not in ms and p["min_layout"]:
+                if isinstance(ms, dict) and "exc" not in ms and p["min_layout"] and md == Lm["dim"]:
                     evaluations += 1
                     stats["min_automaton_compared"] += 1
                     why, dev = _cmp_maut(ms, Lm["min"], 1e-5, 1e-6)   # float Gram–Schmidt + pinv: observed deviations ≤ 2e-9 on 7 500 runs
